@@ -239,6 +239,67 @@ def narrow_shifts(facts, unit_file):
     return out
 
 
+CARRY_STEPS = ("xxPlusStep", "xxTimesStep")
+
+
+def carry_steps(rep):
+    """Word addition with carry (the steps the big-integer and double-word builtins are built from): the carry out of
+    r = x + y (mod B) is r < x (equivalently r < y) and is only valid for a two-term sum; each sum that ends up in the result word
+    is followed by its carry test before the next sum."""
+    f = common.extract("dword.c", "runtime", trees=list(CARRY_STEPS))
+    n = 0
+    for name in CARRY_STEPS:
+        fn = f.func(name)
+        pending, word = None, None
+        where = lambda st: "dword.c:%d (%s)" % (st["l"], name)
+        bad = False
+        for st in fn["body"]["c"]:
+            if st["k"] not in ("BinaryOperator", "CompoundAssignOperator"):
+                continue
+            lhs, rhs = common.strip(st["c"][0]), common.strip(st["c"][1])
+            if st["k"] == "BinaryOperator" and st["op"] == "=" and st["c"][1].get("mac") == "MODB" and lhs["k"] == "DeclRefExpr":
+                terms = []
+
+                def addends(e):
+                    e = common.strip(e)
+                    if e is not None and e["k"] == "BinaryOperator" and e["op"] == "+":
+                        addends(e["c"][0])
+                        addends(e["c"][1])
+                    else:
+                        terms.append(common.render(e))
+                addends(rhs)
+                n += 1
+                key = "carry:%s:sum@%d" % (name, n)
+                if pending is not None and lhs["n"] == word:
+                    rep.violation("B8", key, where(st), "the sum `%s` replaces %s before the carry of the previous sum (%s) was taken: "
+                                  "a carry is lost" % (common.render(st)[:50], word, " + ".join(pending)))
+                    bad = True
+                if len(terms) != 2:
+                    rep.violation("B8", key, where(st), "`%s` adds %d terms modulo the word base in one step: the following test "
+                                  "`r < x` detects the carry of a two-term sum only (x + (B-1) + 1 wraps to x and reports no carry), "
+                                  "so the multi-word result is wrong for operands with an all-ones word" % (common.render(st)[:50], len(terms)))
+                    bad = True
+                pending, word = terms, lhs["n"]
+                continue
+            cmp_ = rhs if rhs is not None and rhs["k"] == "BinaryOperator" and rhs["op"] == "<" else None
+            if cmp_ is not None:
+                a, b = common.render(common.strip(cmp_["c"][0])), common.render(common.strip(cmp_["c"][1]))
+                key = "carry:%s:test@%d" % (name, st["l"])
+                if pending is None or a != word or b not in pending or b == word and pending.count(word) < 1:
+                    rep.violation("B8", "carry:%s:test" % name, where(st), "the carry test `%s` does not compare the sum with one of the "
+                                  "two terms just added (%s)" % (common.render(cmp_), pending))
+                    bad = True
+                pending = None
+                continue
+            if st["op"] == "=" and lhs["k"] == "UnaryOperator" and common.render(lhs) == "*pr" and pending is not None:
+                rep.violation("B8", "carry:%s:stored" % name, where(st), "the result word is stored while the carry of its last sum (%s) "
+                              "has not been taken" % " + ".join(pending))
+                bad = True
+        if not bad:
+            rep.ok("B8", "carry:%s" % name)
+    rep.floor("word sums in the carry steps", n, 3)
+
+
 FORMS = None     # filled when another rule (C03-T4) asks for the per-route trees
 
 
@@ -743,11 +804,14 @@ def run(tier, only=None):
                           "is wrong, so the builtin built on it departs from its mathematical definition for large operands" % txt)
         if not sites:
             rep.ok("B7", "no-narrow-shift:" + unit, nontrivial=False)
+    carry_steps(rep)
     rep.floor("builtins with at least two comparable copies", compared, 150)
     rep.analysed_count("builtins", len(alltags))
     rep.assumptions += [
         "B6: for every builtin returning Bool, each copy's expression (before truth normalisation) is 0/1-valued by its shape: a "
         "comparison, logical operator, !x, 0/1 literal, conditional of such, a Bool operand, or a bigint/store predicate",
+        "B8: in xxPlusStep/xxTimesStep (dword.c) every word sum has two terms and, when it reaches the result word, is followed by "
+        "the carry test against one of them; the top-word sum of xxTimesStep (h + k, stored to *pko) cannot carry",
         "B7 is a width lint over bigint.c, dword.c, foam_c.c, foam_i.c, fint.c, of_cfold.c: an integer literal shifted left by a "
         "non-constant count in type int whose result flows into 64-bit arithmetic",
         "B5 = C02-Q1 restricted to the ring (integer) algebra: table cells of peepBValOpInfo are identities of a commutative ring with "
